@@ -32,6 +32,9 @@ type VerifJob struct {
 // Started marks the job as having been started, as the local job manager
 // does once the process exists.
 func (j *VerifJob) Started() error {
+	if j.md == nil {
+		return nil // a cluster job: the submission removed the marker
+	}
 	return j.md.remove(QueuedLocally)
 }
 
@@ -98,6 +101,30 @@ func VerifNewRuntime(opts *RuntimeOptions, cores, memGB int,
 	if opts.Overrides != nil {
 		rt.overrides = opts.Overrides
 	}
+	return rt, nil
+}
+
+// VerifNewRemoteRuntime builds a Runtime in cluster mode: a real
+// RemoteJobManager with the given template file (named <mode>.template),
+// submit command and max-jobs limit.  The submit command only has to print a
+// job id; the harness plays the cluster.
+func VerifNewRemoteRuntime(opts *RuntimeOptions, cores, memGB int, templatePath, cmd string,
+	args []string, maxJobs int) (*Runtime, error) {
+	rt, err := VerifNewRuntime(opts, cores, memGB, "/nonexistent/mrjob", "/nonexistent/adapters", nil)
+	if err != nil {
+		return nil, err
+	}
+	mode := path.Base(templatePath)
+	if i := len(mode) - len(".template"); i > 0 {
+		mode = mode[:i]
+	}
+	rt.jobConfig.JobModes = map[string]*JobModeJson{mode: {Cmd: cmd, Args: args}}
+	rjm, err := NewRemoteJobManager(templatePath, 0, maxJobs, 0, "", rt.jobConfig, false)
+	if err != nil {
+		return nil, err
+	}
+	rt.JobManager = rjm
+	opts.JobMode = templatePath
 	return rt, nil
 }
 
